@@ -16,8 +16,8 @@ scaling `c0` succeeds and gives `cS` with z = 1; "is the identity" does not depe
 generator the table computed from `c0` and from `cS` is the same non-empty `tF`.
 
 *Partial*: atomicity of a single attribute load / store and of tuple construction under the GIL is assumed (the model
-cannot exhibit a torn reference); `mul_add` and key-level `verify` are not modelled as programs (they are covered by the
-schedule enumeration on the real code only).  `linearizable` takes the `ObjOK` facts as hypotheses;
+cannot exhibit a torn reference); key-level operations (`VerifyingKey.precompute` / `verify_digest` / `to_string`) are
+covered by the schedule enumeration on the real code and by the shape check of the translator, not as programs.  `linearizable` takes the `ObjOK` facts as hypotheses;
 `objOK_of_rep` / `linearizable_valid_points_partial` discharge them from the C06/C07 theorems for every stored valid
 point of a subgroup without 2-torsion (`Jac.NoOrder2`, the N2T hypothesis of C06/C07 — open known finding K1).
 -/
@@ -30,7 +30,7 @@ def methods (info : Nat → ObjInfo) : List (String × M) :=
    ("__neg__", mNeg info), ("__eq__", mEq info), ("__add__", mAdd info), ("_maybe_precompute", mMaybePrecompute info),
    ("_mul_precompute", mMulPrecompute info), ("__mul__", mMul info), ("__getstate__", mGetstate),
    ("__setstate__", mSetstate), ("__ne__", mNe info), ("__radd__", mRadd info), ("__rmul__", mRmul info),
-   ("from_affine", mFromAffine info)]
+   ("from_affine", mFromAffine info), ("mul_add", mMulAdd info)]
 
 /-- **skeleton_matches**: for every modelled method, the ordered loads / stores of `__coords` / `__precompute`, the calls
 and the control structure around them are exactly those `gen_access.py` extracts from the current source, and every call
@@ -40,15 +40,15 @@ theorem skeleton_matches (info : Nat → ObjInfo) :
     ∀ nm ∈ methods info, flat nm.2 = Gen.Access.skel nm.1 ∧ callsOk Gen.Access.skel nm.2 = true := by
   intro nm h
   simp only [methods, List.mem_cons, List.mem_nil_iff, or_false] at h
-  rcases h with rfl | rfl | rfl | rfl | rfl | rfl | rfl | rfl | rfl | rfl | rfl | rfl | rfl | rfl | rfl | rfl | rfl <;>
+  rcases h with rfl | rfl | rfl | rfl | rfl | rfl | rfl | rfl | rfl | rfl | rfl | rfl | rfl | rfl | rfl | rfl | rfl | rfl <;>
     exact ⟨rfl, rfl⟩
 
-/-- every method of the class that touches the two fields is modelled, except `mul_add` -/
+/-- every method of the class that touches the two fields is modelled -/
 theorem modelled_methods_cover (info : Nat → ObjInfo) :
-    ∀ m ∈ Gen.Access.touched, m = "mul_add" ∨ m ∈ (methods info).map (·.1) := by
+    ∀ m ∈ Gen.Access.touched, m ∈ (methods info).map (·.1) := by
   have : (methods info).map (·.1) = ["x", "y", "scale", "to_affine", "double", "__neg__", "__eq__", "__add__",
       "_maybe_precompute", "_mul_precompute", "__mul__", "__getstate__", "__setstate__", "__ne__", "__radd__", "__rmul__",
-      "from_affine"] := rfl
+      "from_affine", "mul_add"] := rfl
   rw [this]
   decide
 
@@ -77,7 +77,8 @@ theorem inv_all_schedules {K V R : Type} [DecidableEq K] [DecidableEq V] (good :
 inductive Op
   | x (id : Nat) | y (id : Nat) | scale (id : Nat) | toAffine (id : Nat) | double (id : Nat) | neg (id : Nat)
   | getstate (id : Nat) | eq (s o : Nat) | eqInf (id : Nat) | add (s o : Nat) | mul (id : Nat) (k : Int)
-  | maybePrecompute (id : Nat)
+  | maybePrecompute (id : Nat) | ne (s o : Nat) | radd (s o : Nat) | rmul (id : Nat) (k : Int)
+  | fromAffine (id : Nat) (gen : Int) | mulAdd (s : Nat) (ka : Int) (o : Nat) (kb : Int)
 
 def Op.prog (E : Env) : Op → P
   | .x id => toProg (mX E.info) { self := id }
@@ -92,6 +93,11 @@ def Op.prog (E : Env) : Op → P
   | .add s o => toProg (mAdd E.info) { self := s, other := o }
   | .mul id k => toProg (mMul E.info) { self := id, ka := k }
   | .maybePrecompute id => toProg (mMaybePrecompute E.info) { self := id }
+  | .ne s o => toProg (mNe E.info) { self := s, other := o }
+  | .radd s o => toProg (mRadd E.info) { self := s, other := o }
+  | .rmul id k => toProg (mRmul E.info) { self := id, ka := k }
+  | .fromAffine id g => toProg (mFromAffine E.info) { self := id, other := id, ka := g }
+  | .mulAdd s ka o kb => toProg (mMulAdd E.info) { self := s, other := o, ka := ka, kb := kb }
 
 /-- what each operation may return: its SEQUENTIAL value (the functions of `Model/Curve.lean`) on an object whose
 coordinates are the initial triple or its scaled form and whose table is empty or complete — i.e. the value it returns
@@ -109,6 +115,12 @@ def Op.acc (E : Env) : Op → Res Out → Prop
   | .add s o => fun r => ∃ a b, GoodC E s a ∧ GoodC E o b ∧ r = seqAdd (E.info s) s a (E.info o) o b
   | .mul id k => fun r => ∃ c t, GoodC E id c ∧ (t = [] ∨ t = E.tF id) ∧ r = seqMul (E.info id) id c t k
   | .maybePrecompute _ => fun r => r = .ok .none
+  | .ne s o => fun r => ∃ r0, accEq E s o r0 ∧ r = negOut r0
+  | .radd s o => accAdd E s o
+  | .rmul id k => accMul E id k
+  | .fromAffine id g => fun r => ∃ ca cb, GoodC E id ca ∧ GoodC E id cb ∧
+      r = fromAffineOut (E.info id) g (seqX (E.info id) ca) (seqY (E.info id) cb)
+  | .mulAdd s ka o kb => accMulAdd E s o ka kb
 
 theorem op_safe_x (E : Env) (id : Nat) (ph : Phases Cell) : SafeE E ((Op.x id).acc E) ph ((Op.x id).prog E) :=
   ThreadProgs.op_safe_x E id ph
@@ -136,6 +148,33 @@ theorem op_safe_maybe_precompute (E : Env) (id : Nat) (hok : ObjOK E id) (ph : P
     SafeE E ((Op.maybePrecompute id).acc E) ph ((Op.maybePrecompute id).prog E) :=
   ThreadProgs.op_safe_maybe_precompute E id hok ph
 
+theorem op_safe_ne (E : Env) (s o : Nat) (ph : Phases Cell) : SafeE E ((Op.ne s o).acc E) ph ((Op.ne s o).prog E) :=
+  ThreadProgs.op_safe_ne E s o ph
+theorem op_safe_radd (E : Env) (s o : Nat) (hs : ObjOK E s) (ho : ObjOK E o) (ph : Phases Cell) :
+    SafeE E ((Op.radd s o).acc E) ph ((Op.radd s o).prog E) := ThreadProgs.op_safe_radd E s o hs ho ph
+theorem op_safe_rmul (E : Env) (id : Nat) (k : Int) (hok : ObjOK E id) (ph : Phases Cell) :
+    SafeE E ((Op.rmul id k).acc E) ph ((Op.rmul id k).prog E) := ThreadProgs.op_safe_rmul E id k hok ph
+theorem op_safe_from_affine (E : Env) (id : Nat) (g : Int) (ph : Phases Cell) :
+    SafeE E ((Op.fromAffine id g).acc E) ph ((Op.fromAffine id g).prog E) := ThreadProgs.op_safe_from_affine E id g ph
+/-- `a.mul_add(ka, b, kb)`: the branch conditions of the sequential code (b the identity or kb = 0; ka = 0; both points
+have tables; `a + b` the identity) are the same under every interleaving, and in the branch taken each sub-operation
+(`*`, the `+` of the two RESULTS — which are the shared objects themselves for a multiplier 1 —, the joint NAF loop on the
+scaled coordinates) returns its sequential value on allowed snapshots (`accMulAdd`) -/
+theorem op_safe_mul_add (E : Env) (s : Nat) (ka : Int) (o : Nat) (kb : Int) (hs : ObjOK E s) (ho : ObjOK E o)
+    (ph : Phases Cell) : SafeE E ((Op.mulAdd s ka o kb).acc E) ph ((Op.mulAdd s ka o kb).prog E) :=
+  ThreadProgs.op_safe_mul_add E s o ka kb hs ho ph
+
+/-- pickling: `__getstate__` on the shared object returns a pair of ALLOWED values (`op_safe_getstate`), and
+`__setstate__` — run on the new object — performs exactly two stores, of that pair: the unpickled copy's cells hold an
+allowed triple and an allowed table (never a mixture of a half-updated state) -/
+theorem pickle_roundtrip_allowed (E : Env) (id : Nat) (ph : Phases Cell) :
+    SafeE E (fun r => ∃ c t, (c = E.c0 id ∨ c = E.cS id) ∧ (t = [] ∨ t = E.tF id) ∧ r = .ok (.state c t)) ph
+      ((Op.getstate id).prog E) ∧
+    ∀ (new : Nat) (c : Coords) (t : Table),
+      toProg mSetstate { self := new, ca := c, ta := t } =
+        .write (new, .coords) (.coords c) (.write (new, .pre) (.table t) (.ret (.ok .none))) :=
+  ⟨ThreadProgs.op_safe_getstate E id ph, fun new c t => setstate_prog { self := new, ca := c, ta := t } rfl⟩
+
 /-- every operation is `Safe` from the initial phases -/
 theorem op_safe (E : Env) (hok : ∀ id, ObjOK E id) (op : Op) : SafeE E (op.acc E) allAny (op.prog E) := by
   cases op with
@@ -151,6 +190,11 @@ theorem op_safe (E : Env) (hok : ∀ id, ObjOK E id) (op : Op) : SafeE E (op.acc
   | add s o => exact op_safe_add E s o (hok s) (hok o) _
   | mul id k => exact op_safe_mul E id k (hok id) _
   | maybePrecompute id => exact op_safe_maybe_precompute E id (hok id) _
+  | ne s o => exact op_safe_ne E s o _
+  | radd s o => exact op_safe_radd E s o (hok s) (hok o) _
+  | rmul id k => exact op_safe_rmul E id k (hok id) _
+  | fromAffine id g => exact op_safe_from_affine E id g _
+  | mulAdd s ka o kb => exact op_safe_mul_add E s ka o kb (hok s) (hok o) _
 
 /-- initial configuration: object `id` holds its initial triple and an empty or already complete table (`full id`);
 one thread per operation -/
@@ -276,7 +320,7 @@ example : (run toyEnv.canon (initCfg toyEnv (fun _ => false) [.x 0, .scale 0]) [
       = .coords (5, 9, 1) ∧
     ((run toyEnv.canon (initCfg toyEnv (fun _ => false) [.x 0, .scale 0]) [1, 0, 1]).thr.map resultOf) =
       [some (.ok (.int 5)), some (.ok (.obj 0))] := by
-  simp [run, step, initCfg, Op.prog, toProg, den, mX, mScale, loadA, Loc.obj, bindRes_ok, bindRes_ret, asCoords, selfPJ,
+  simp [run, step, initCfg, Op.prog, toProg, den, mX, mScale, loadA, Loc.obj, Loc.fresh, bindRes_ok, bindRes_ret, asCoords, selfPJ,
     toyEnv, toy_scale', Curve.pjX, mkPJ, toyInfo, toy_inv2, pmod, updHeap, resultOf, coordsOf, Except.map, Env.canon,
     bind, Except.bind]
 
